@@ -206,6 +206,19 @@ def run(chk):
             chk.violation("C18|standardize_dataframe|not-cell-local", "standardize_dataframe output is not the cell-by-cell standardisation of the "
                           "standard columns with everything else preserved", {**meta, "real": got, "model": a[1]})
 
+    # ---- deprecated alias and argument errors
+    small = pd.DataFrame({"CDR3B": ["ASSQ", None], "x": [1, 2]}, index=[4, 2])
+    r_old = core.call_real(lambda: io.standardize_dataframe(df_old=small, suppress_warnings=True))
+    r_new = core.call_real(lambda: io.standardize_dataframe(df=small, suppress_warnings=True))
+    chk.case(nontrivial_key="df_old")
+    if r_old[0] != "ok" or r_new[0] != "ok" or not r_old[1].equals(r_new[1]):
+        chk.violation("C18|standardize_dataframe|df_old-alias", "standardize_dataframe(df_old=...) differs from standardize_dataframe(df=...)", {})
+    for name, call in (("both-df-and-df_old", lambda: io.standardize_dataframe(df=small, df_old=small)), ("no-df", lambda: io.standardize_dataframe())):
+        r = core.call_real(call)
+        chk.case(nontrivial_key=name)
+        if r != ("error", "ValueError"):
+            chk.violation(f"C18|standardize_dataframe|{name}", f"standardize_dataframe({name}) gave {str(r)[:80]} instead of ValueError", {})
+
     # ---- multimerge: reference outer/inner join on unique keys
     for _ in range(20 if not thorough else 200):
         nt = rng.randint(2, 4)
